@@ -534,6 +534,7 @@ def correspond(ctx):
     ctx.extra["window_lines_inconsistent"] = window_hits
     flow_phase_test(ctx, lines, src)
     exit_code_test(ctx)
+    populate_interrupt_test(ctx)
     ins_test(ctx)
 
 
@@ -689,6 +690,81 @@ def exit_code_test(ctx):
                 ctx.oracle_fail("FlowSampler.safe_exit:exit-code",
                                 f"{signal.Signals(sig).name}: handler exited with {code} (configured {want}), checkpoint written: {has_ckpt}", case)
             ctx.case(("exit-code", int(sig), want, code), True, case, kind="exit-code")
+        finally:
+            shutil.rmtree(tmp, ignore_errors=True)
+
+
+def populate_interrupt_test(ctx):
+    """a signal while the INITIAL live points are being drawn (populate_live_points): the handler's checkpoint is taken
+    after the k-th prior draw; the resumed run must start from a full, sorted, duplicate-free live set at iteration 0 and be
+    able to iterate (seeded change C13-d: the half-filled array was bound to self.live_points before it was complete, so the
+    checkpoint carried NaN rows and the resume skipped the population)"""
+    from nessai.samplers.nestedsampler import NestedSampler
+    nlive = 10
+    for k in ctx.scale([1, 4, 9], [1, 2, 3, 5, 8, 9, 10]):
+        tmp = tempfile.mkdtemp(prefix="c13p_")
+        case = {"layer": "populate", "nlive": nlive, "interrupt_after_initial_draw": k}
+        try:
+            init = [(j + 1, j + 1) for j in range(nlive)]                 # (key, id): distinct likelihoods 1..n
+            m = _model()
+            ns = NestedSampler(m, nlive=nlive, output=tmp, resume_file="ckpt.pkl", plot=False, checkpointing=True,
+                               checkpoint_interval=10 ** 9, checkpoint_on_iteration=True, seed=1,
+                               uninformed_proposal=Scripted, uninformed_proposal_kwargs={"queue": list(init)},
+                               maximum_uninformed=np.inf, uninformed_acceptance_threshold=0.0, log_on_iteration=False)
+            ns.initialise(live_points=False)
+            count = {"n": 0}
+            orig_draw = Scripted.draw
+
+            def draw(self_, old):
+                out = orig_draw(self_, old)
+                count["n"] += 1
+                if count["n"] == k:
+                    ns.close_pool(code=signal.SIGTERM)
+                    ns.checkpoint()                 # what FlowSampler.safe_exit does before exiting
+                    raise Interrupted()
+                return out
+            Scripted.draw = draw
+            try:
+                try:
+                    ns.populate_live_points()
+                except Interrupted:
+                    pass
+            finally:
+                Scripted.draw = orig_draw
+            if not os.path.exists(os.path.join(tmp, "ckpt.pkl")):
+                ctx.oracle_fail("NestedSampler.populate_live_points:interrupt:no-checkpoint",
+                                "the handler's checkpoint request during the initial population left no checkpoint file", case)
+                continue
+            try:
+                with open(os.path.join(tmp, "ckpt.pkl"), "rb") as f:
+                    ns2 = pickle.load(f)
+                ns2 = NestedSampler.resume_from_pickled_sampler(ns2, _model())
+                # a fresh process draws the initial points again from its own proposal
+                ns2._uninformed_proposal.queue = [(j + 1, j + 101) for j in range(nlive)] + [(20, 300)]
+                ns2.initialise(live_points=True)
+                ns2.check_resume()
+                st0 = state_of(ns2)
+                ok0 = consistent(st0, nlive) and st0["iter"] == 0
+                why = "; ".join(reasons(st0, nlive)) if not ok0 else ""
+                live = ns2.live_points
+                if live is None or len(live) != nlive or np.any(np.isnan(live["logL"])):
+                    ok0, why = False, (why + "; " if why else "") + "the live set holds NaN / missing points"
+                if ok0:
+                    ns2.check_state()
+                    ns2.consume_sample()
+                    st1 = state_of(ns2)
+                    if not consistent(st1, nlive):
+                        ok0, why = False, "after one iteration: " + "; ".join(reasons(st1, nlive))
+            except Exception as e:  # noqa
+                ctx.oracle_fail("NestedSampler.populate_live_points:resume-after-signal:raised",
+                                f"resuming from the checkpoint the handler wrote during the initial population failed: "
+                                f"{type(e).__name__}: {e}", case)
+                continue
+            if not ok0:
+                ctx.oracle_fail("NestedSampler.populate_live_points:interrupt-during-initial-population",
+                                f"a signal after initial draw {k} of {nlive} leaves a checkpoint that resumes to an inconsistent "
+                                f"state: {why}", dict(case, state=fmt_state(st0, nlive)))
+            ctx.case(("populate-interrupt", k), True, case if k == 4 else None, kind="populate-interrupt")
         finally:
             shutil.rmtree(tmp, ignore_errors=True)
 
